@@ -14,7 +14,9 @@ import (
 	"encoding/json"
 	"errors"
 	"fmt"
+	"log/slog"
 	"os"
+	"runtime"
 	"sort"
 	"strings"
 	"sync"
@@ -267,8 +269,10 @@ func (s *lgS3) EnsureBucket(ctx context.Context) error { return nil }
 
 type lgStore struct {
 	metadata.Store
-	mu sync.Mutex
-	r  *lgRun
+	mu       sync.Mutex
+	r        *lgRun
+	imu      sync.Mutex
+	inflight map[int64]int
 }
 
 func (s *lgStore) UpdateOffsets(ctx context.Context, topic string, partition int32, lastOffset int64) error {
@@ -276,6 +280,32 @@ func (s *lgStore) UpdateOffsets(ctx context.Context, topic string, partition int
 	if _, known := lgWho(ctx); known && !live {
 		return errors.New("broker incarnation is gone")
 	}
+	// Adversarial store latency: when two updates overlap in time (possible only if the caller does not
+	// serialise them), the older one is delivered last.
+	s.imu.Lock()
+	s.inflight[lastOffset]++
+	s.imu.Unlock()
+	for i := 0; i < 2000; i++ {
+		s.imu.Lock()
+		newer := false
+		for v, n := range s.inflight {
+			if n > 0 && v > lastOffset {
+				newer = true
+			}
+		}
+		s.imu.Unlock()
+		if !newer {
+			if i > 20 {
+				break
+			}
+		}
+		runtime.Gosched()
+	}
+	defer func() {
+		s.imu.Lock()
+		s.inflight[lastOffset]--
+		s.imu.Unlock()
+	}()
 	s.mu.Lock()
 	defer s.mu.Unlock()
 	prev, _ := s.Store.NextOffset(ctx, topic, partition)
@@ -284,6 +314,21 @@ func (s *lgStore) UpdateOffsets(ctx context.Context, topic string, partition int
 	s.r.emit(map[string]any{"src": "store", "ev": "UpdateOffsets", "p": p, "last": lastOffset, "prev": prev, "new": cur})
 	return err
 }
+
+// ---- a logger that is a scheduling point --------------------------------------------------------
+// Every log call yields the processor a number of times, so that a window that contains a log call
+// (e.g. between releasing a lock and the next step) is wide enough for woken goroutines to run in it.
+type lgYieldHandler struct{}
+
+func (lgYieldHandler) Enabled(context.Context, slog.Level) bool { return true }
+func (lgYieldHandler) Handle(context.Context, slog.Record) error {
+	for i := 0; i < 200; i++ {
+		runtime.Gosched()
+	}
+	return nil
+}
+func (h lgYieldHandler) WithAttrs([]slog.Attr) slog.Handler { return h }
+func (h lgYieldHandler) WithGroup(string) slog.Handler      { return h }
 
 // ---- batches ---------------------------------------------------------------------------------
 
@@ -323,7 +368,7 @@ func lgRunSchedule(t *testing.T, sc lgSched) (lines []map[string]any, hits map[s
 	r := &lgRun{arrived: map[string]chan string{}, hit: map[string]int{}, busy: map[string]int{}}
 	synctest.Test(t, func(t *testing.T) {
 		s3 := &lgS3{seg: map[string][]byte{}, idx: map[string][]byte{}, r: r}
-		store := &lgStore{Store: metadata.NewInMemoryStore(lgMeta()), r: r}
+		store := &lgStore{Store: metadata.NewInMemoryStore(lgMeta()), r: r, inflight: map[int64]int{}}
 		storage.SetVerifHooks(&storage.VerifHooks{
 			Trace: func(ctx context.Context, ev string, l *storage.PartitionLog, a, b int64) {
 				p, live := r.live(ctx)
@@ -340,7 +385,8 @@ func lgRunSchedule(t *testing.T, sc lgSched) (lines []map[string]any, hits map[s
 		})
 		defer storage.SetVerifHooks(nil)
 		mk := func() *handler {
-			h := newHandler(store, s3, protocol.MetadataBroker{NodeID: 1, Host: "localhost", Port: 19092}, testLogger())
+			h := newHandler(store, s3, protocol.MetadataBroker{NodeID: 1, Host: "localhost", Port: 19092}, slog.New(lgYieldHandler{}))
+			h.logConfig.Logger = slog.New(lgYieldHandler{})
 			h.logConfig.Buffer = storage.WriteBufferConfig{MaxBytes: 1 << 30, MaxBatches: sc.Inline}
 			h.logConfig.Segment = storage.SegmentWriterConfig{IndexIntervalMessages: int32(sc.Interval)}
 			h.logConfig.CacheEnabled = sc.Cache
@@ -453,7 +499,45 @@ func lgRunSchedule(t *testing.T, sc lgSched) (lines []map[string]any, hits map[s
 					reads = append(reads, m)
 				}
 			}
-			r.emit(map[string]any{"src": "reader", "ev": "Grid", "hw": hw, "next": st.Next, "ref": refl, "reads": reads, "st": st})
+			// the consumer's view: real Fetch requests through the handler (bounded by the high watermark it reports)
+			fetches := []map[string]any{}
+			for o := int64(0); o <= st.Next; o++ {
+				req := kmsg.NewPtrFetchRequest()
+				req.Version, req.ReplicaID, req.MaxWaitMillis, req.MinBytes, req.MaxBytes = 11, -1, 0, 0, 1<<20
+				ft := kmsg.NewFetchRequestTopic()
+				ft.Topic = lgTopic
+				fp := kmsg.NewFetchRequestTopicPartition()
+				fp.Partition, fp.FetchOffset, fp.PartitionMaxBytes = 0, o, 200
+				ft.Partitions = append(ft.Partitions, fp)
+				req.Topics = append(req.Topics, ft)
+				cid := "reader"
+				out, err := h.handleFetch(readerCtx, &protocol.RequestHeader{APIKey: 1, APIVersion: 11, CorrelationID: 1, ClientID: &cid}, req)
+				if err != nil || out == nil {
+					fetches = append(fetches, map[string]any{"o": o, "code": -100, "hw": int64(-1), "kind": "err", "len": 0, "aligned": true, "intact": true, "first": int64(-1), "starts": []int64{}, "mb": 200})
+					continue
+				}
+				resp := kmsg.NewPtrFetchResponse()
+				resp.SetVersion(11)
+				body, ok := protocol.SkipResponseHeader(resp.Key(), 11, out)
+				if !ok || resp.ReadFrom(body) != nil || len(resp.Topics) != 1 || len(resp.Topics[0].Partitions) != 1 {
+					fetches = append(fetches, map[string]any{"o": o, "code": -101, "hw": int64(-1), "kind": "err", "len": 0, "aligned": true, "intact": true, "first": int64(-1), "starts": []int64{}, "mb": 200})
+					continue
+				}
+				pr := resp.Topics[0].Partitions[0]
+				var m map[string]any
+				if pr.ErrorCode != 0 || len(pr.RecordBatches) == 0 {
+					kind := "empty"
+					if pr.ErrorCode != 0 {
+						kind = "oor"
+					}
+					m = map[string]any{"kind": kind, "len": 0, "aligned": true, "intact": true, "first": int64(-1), "starts": []int64{}}
+				} else {
+					m = project(pr.RecordBatches)
+				}
+				m["o"], m["mb"], m["code"], m["hw"] = o, 200, int(pr.ErrorCode), pr.HighWatermark
+				fetches = append(fetches, m)
+			}
+			r.emit(map[string]any{"src": "reader", "ev": "Grid", "hw": hw, "next": st.Next, "ref": refl, "reads": reads, "fetches": fetches, "st": st})
 		}
 
 		produce := func(p string, n int, kind string) {
@@ -581,7 +665,11 @@ func lgRunSchedule(t *testing.T, sc lgSched) (lines []map[string]any, hits map[s
 			}
 			t.Fatalf("verif harness: could not finish the in-flight request of %s", p)
 		}
-		for _, st := range sc.Steps {
+		skipPublish := map[int]bool{}
+		for si, st := range sc.Steps {
+			if skipPublish[si] {
+				continue
+			}
 			switch st.A {
 			case "Append":
 				finish(st.P)
@@ -603,6 +691,27 @@ func lgRunSchedule(t *testing.T, sc lgSched) (lines []map[string]any, hits map[s
 			case "PubRead":
 				r.release(st.P+":pubread", "go")
 			case "Publish":
+				// Two producers whose store updates are both due: let them race (the callbacks run outside the
+				// log's lock, so nothing in the model orders them); the recorded order is what is validated.
+				if si+1 < len(sc.Steps) && sc.Steps[si+1].A == "Publish" && sc.Steps[si+1].P != st.P {
+					q := sc.Steps[si+1].P
+					synctest.Wait()
+					r.amu.Lock()
+					c1, ok1 := r.arrived[st.P+":publish"]
+					c2, ok2 := r.arrived[q+":publish"]
+					if ok1 && ok2 {
+						delete(r.arrived, st.P+":publish")
+						delete(r.arrived, q+":publish")
+					}
+					r.amu.Unlock()
+					if ok1 && ok2 {
+						skipPublish[si+1] = true
+						c1 <- "go"
+						c2 <- "go"
+						synctest.Wait()
+						break
+					}
+				}
 				r.release(st.P+":publish", "go")
 			case "Ack", "Err":
 				// the reply is recorded when the request goroutine returns
